@@ -433,7 +433,7 @@ class C19(Prop):
 
     def run(self, ctx):
         sch = json.load(open(os.path.join(ctx.root, "work", "schema.json")))
-        feats = sch["features"]["all_msgs"]
+        feats = sch["msg_features"]
         r = ctx.rng("cfg")
         thorough = ctx.tier == "thorough"
         # single-feature selections whose module graph is not dependency-closed (computed from the translated
